@@ -75,3 +75,33 @@ def fold_schedule(fn, counter):
         else:
             steps.add(op)
     return {'init': init, 'steps': sorted(steps, key=str), 'resets': resets}
+
+
+def accumulator(fn):
+    """name of the local that the key builder returns (the accumulator the fields are OR-ed into)"""
+    cands = {}
+    for r in fn.all('ReturnStmt'):
+        rv = fn.nodes[r].get('val')
+        if rv is None:
+            continue
+        x = fn.nodes.get(fn.strip(rv, casts=True), {})
+        if x.get('k') == 'DeclRefExpr' and x.get('rk') == 'local':
+            cands[x['name']] = cands.get(x['name'], 0) + 1
+    if cands:
+        return sorted(cands.items(), key=lambda kv: -kv[1])[0][0]
+    # otherwise: the 64 bit local that receives |= / ^= of shifted values
+    for nid, d, rhs, op, lhs in fn.assignments():
+        if op in ('|=', '^=') and d and rhs is not None and '<<' in fn.key(rhs):
+            return d.split(':')[-1]
+    return None
+
+
+def fold_counter(fn, acc):
+    """name of the variable that is post-decremented inside the shift amount of a fold into acc"""
+    for p in placements(fn, acc):
+        if not isinstance(p['shift'], int):
+            import re
+            m = re.search(r'(\w+)--', p['shift'])
+            if m:
+                return m.group(1)
+    return None
